@@ -56,8 +56,8 @@ def run(chk):
         if cur is None or len(cur) > 90:
             cur = []
             progs.append({'calls': cur})
-        cur.append({'op': 'packstruct', 'rid': 'p', 'sa': r['sa'], 'va': r['va'], 'ia': [i % 4], 'drop': ['*']})
-        cur.append({'op': 'unpackstruct', 't': 'p', 'sa': r['sa'], 'ia': [(i + 1) % 4]})
+        cur.append({'op': 'packstruct', 'rid': 'p', 'sa': r['sa'], 'va': r['va'], 'ia': [i % 8], 'drop': ['*']})
+        cur.append({'op': 'unpackstruct', 't': 'p', 'sa': r['sa'], 'ia': [(i + 1) % 8]})
         cur.append({'op': 'tobytes', 't': 'p', 'sa': [['tobytes', 'prop', 'bytes()'][i % 3]]})
     chk.queue(progs, 'tlc-struct')
     chk.exhaustive = True
